@@ -22,7 +22,8 @@ KEY = {1: "reject/bracketed-anytrait", 2: "accept/outside-documented-language", 
        4: "meaning/paths-or-notify", 5: "compile-error/distinct-paths", 6: "reject/documented-string",
        7: "spelling/acceptance-differs", 8: "spelling/graphs-differ", 9: "spelling/python-eq-false",
        10: "spelling/hash-differs", 11: "exception/not-ValueError", 12: "equality/different-patterns-compare-equal",
-       13: "cache/answer-changes-between-calls", 14: "entry-points/parse-and-compile_str-disagree"}
+       13: "cache/answer-changes-between-calls", 14: "entry-points/parse-and-compile_str-disagree",
+       15: "removal/registered-by-one-spelling-not-removable-by-the-other"}
 _W = re.compile(r"\w")
 
 
@@ -71,7 +72,7 @@ def to_term(case, ob):
         return C("Single", text_term(case["s"]), outcome_term(ob), bool(ob.get("stable", True)),
                  bool(ob.get("agree", True)))
     return C("Pair", bool(case.get("same", True)), text_term(case["s1"]), text_term(case["s2"]), outcome_term(ob["o1"]), outcome_term(ob["o2"]),
-             bool(ob["pyeq"]), bool(ob["hasheq"]))
+             bool(ob["pyeq"]), bool(ob["hasheq"]), bool(ob.get("removal", True)))
 
 
 # ----------------------------------------------------------------------------- generators
@@ -368,7 +369,7 @@ def describe(case, ob, code):
         txt, o = case["s"], ob
     else:
         txt, o = (case["s1"], ob["o1"]) if which == 1 else (case["s2"], ob["o2"])
-    if clause in (7, 8, 9, 10, 12):
+    if clause in (7, 8, 9, 10, 12, 15):
         return "texts %r and %r (%s): %s (outcomes %s / %s, python == %s, hashes equal %s)" % (
             case["s1"], case["s2"], "two spellings of one expression" if case.get("same", True) else "different patterns",
             KEY[clause], ob["o1"]["o"], ob["o2"]["o"], ob["pyeq"], ob["hasheq"])
@@ -425,6 +426,8 @@ def run_cases(ctx, cases, tag, relation):
         else:
             ctx.case_seen("p:" + c["s1"] + "|" + c["s2"], o["o1"]["o"] != "rej")
             ctx.count("outcome-pair:" + o["o1"]["o"])
+            if o.get("removal_checked"):
+                ctx.count("pair:registered-by-one-spelling-and-removed-by-the-other")
     ctx.cov["traces_validated_against_impl"] += len(cases)
     law_idx = set()
     seen = set()
